@@ -301,6 +301,27 @@ Definition apply_event (g : gvk) (i : option (list handler)) (e : event) : optio
 Definition replay (g : gvk) (evs : list event) (i : option (list handler)) : option (list handler) :=
   fold_left (apply_event g) evs i.
 
+(** The population of informer goroutines.  The real InformerMap starts one with
+    [go e.Informer.Run(e.StopCh)] when it adds an entry (informer_map.go:178-179, event [EStart]) and
+    stops it with [close(entry.StopCh)] only in Delete, together with removing the entry
+    (informer_map.go:133-134, event [EStop]).  In particular a Get that times out waiting for the initial
+    sync (outcome [informer_sync_fails], informer_map.go:111-116) neither removes the entry nor stops the
+    informer: it stays in the map, still running, and it is the caller (Cache.Watch -> releaseInformer ->
+    Delete) who gets rid of it.  [live g evs]: how many informers of kind [g] were started and not
+    stopped by a history of events. *)
+Definition pool_event (g : gvk) (n : nat) (e : event) : nat :=
+  match e with
+  | EStart g' => if g' =? g then S n else n
+  | EStop g' => if g' =? g then Nat.pred n else n
+  | _ => n
+  end.
+
+Definition live_from (g : gvk) (evs : list event) (n : nat) : nat := fold_left (pool_event g) evs n.
+Definition live (g : gvk) (evs : list event) : nat := live_from g evs 0.
+
+(** All events of a run, in order. *)
+Definition history (tr : list (output * state)) : list event := flat_map (fun p => o_events (fst p)) tr.
+
 (** Predicates on operation sequences. *)
 Definition start_failure (out : outcome) : bool :=
   match out with
